@@ -212,8 +212,11 @@ def exhaustive_small_stacks():
 # implementation side
 
 
-def impl_effective(stack, cli, queries):
-    """Returns 'ERR' or {(opt, mp): value}."""
+def impl_effective(stack, cli, queries, via_visitor=False):
+    """Returns 'ERR' or {(opt, mp): value}.  via_visitor: build the Options the
+    way the command line does (NameCheckVisitor.prepare_constructor_kwargs:
+    settings / option kwargs / config_file) instead of calling
+    Options.from_option_list directly."""
     import pyanalyze.name_check_visitor  # registers all options  # noqa: F401
     from pyanalyze.options import ConfigOption, InvalidConfigOption, Options
 
@@ -224,7 +227,19 @@ def impl_effective(stack, cli, queries):
         for opt, v in cli:
             insts.append(ConfigOption.registry[opt](v, from_command_line=True))
         try:
-            options = Options.from_option_list(insts, main)
+            if via_visitor:
+                from pyanalyze.error_code import ErrorCode as EC
+                from pyanalyze.name_check_visitor import NameCheckVisitor
+
+                kwargs = {"config_file": main, "settings": {}}
+                for opt, v in cli:
+                    if opt in (BOOL_ON, BOOL_OFF):
+                        kwargs["settings"][getattr(EC, opt)] = v
+                    else:
+                        kwargs[opt] = v
+                options = NameCheckVisitor.prepare_constructor_kwargs(kwargs)["checker"].options
+            else:
+                options = Options.from_option_list(insts, main)
         except InvalidConfigOption:
             return "ERR"
         out = {}
@@ -445,9 +460,11 @@ def run(tier: str, replay: str | None = None):
 
     # 2. cases
     cases = []  # (stack, cli, queries)
-    if replay:
-        import json
+    import json
 
+    if replay and "input" not in json.loads(Path(replay).read_text()):
+        replay = None  # a broken-obligation replay names a theorem, not an input: re-run the whole check
+    if replay:
         r = json.loads(Path(replay).read_text())
         c = r["input"]
         cases.append((totuple(c["stack"]), [tuple(x) for x in c["cli"]], [tuple(q) for q in c["queries"]]))
@@ -476,11 +493,15 @@ def run(tier: str, replay: str | None = None):
     hist = {"files": {}, "err": 0, "chains": 0, "nonchain": 0}
     impl_results = []
     oracle_mismatch = []
+    n_via = 0
+    via_budget = 160 if tier == "quick" else 1500
     for ci, (st, cli, qs) in enumerate(cases):
         opts = sorted({e[1] for f in st for e in all_entries(f) if e[0] == "set"} | {BOOL_ON, INT_OPT})
         queries = [(o, q) for o in opts for q in qs]
         try:
-            res = impl_effective(st, cli, queries)
+            res = impl_effective(st, cli, queries, via_visitor=(bool(cli) or ci % 7 == 0) and n_via < via_budget)
+            if (bool(cli) or ci % 7 == 0) and n_via < via_budget:
+                n_via += 1
         except Exception as ex:  # the implementation crashed: not a config error
             res = {"CRASH": repr(ex)}
         impl_results.append(res)
@@ -556,6 +577,7 @@ def run(tier: str, replay: str | None = None):
         samples=[{"toml": case_payload(0, None)["toml"], "cli": cases[0][1], "impl": str(impl_results[0])[:300]}] if cases else [],
         traces_validated_against_impl=len(terms) - len(corr_mismatch),
         input_distribution=hist,
+        cases_through_prepare_constructor_kwargs=n_via,
         correspondence_mismatches=len(corr_mismatch),
         oracle_mismatches=len(oracle_mismatch),
         exhaustive=False,
